@@ -5,6 +5,9 @@ K (correspondence, model vs implementation)
       whose `method` / `path` are arbitrary strings: "was the authenticate callback consulted" vs `C20.exempt`;
   K2  the *real* Falcon router of the same app (`app._router.find(path)`) vs `C20.route`;
   K3  `RpcServer.methods` of a protocol that also declares underscore names vs `C20.serverMethods`;
+  K5  request sequences on one app instance: the model answers every request from the request alone (`respondAll`; the
+      extraction checks that `_AuthMiddleware` stores nothing between requests), so any verdict remembered by the real
+      middleware shows as a mismatch at the step where it matters;
   K4  whole requests through `falcon.testing.TestClient`: callback consulted / rejected, and — with accepted
       credentials — which service code ran (implementation's own invocation log) vs `C20.respond`.
 O (direct oracle, the property on the implementation)
@@ -36,6 +39,7 @@ OBLIGATIONS = [
     "VgiVerif.C20.exempt_route_runs_nothing",
     "VgiVerif.C20.C20",
     "VgiVerif.C20.C20_consulted",
+    "VgiVerif.C20.C20_history",
 ]
 TRUSTED = [
     "Falcon: a process_request that raises HTTPUnauthorized prevents routing/responders (exercised end-to-end, not modelled)",
@@ -48,8 +52,11 @@ RULE = (
     "size-cap x describe-page x landing x introspection x describe, services whose method names collide with framework "
     "endpoints (health, healthcheck, health_v2, describe, init, exchange, oauth …) as unary / producer / exchange methods; "
     "requests: every verb x (prefix + every route suffix of every name) + mutations (doubled / trailing slashes, case, "
-    "suffix/prefix edits, other prefix); a case is distinct by (configuration, verb, path, credential) and non-trivial "
-    "when an authenticator is configured"
+    "suffix/prefix edits, other prefix), the verb that touches a path first varying from path to path; request SEQUENCES "
+    "against one fresh app instance (hand-written: credential-less OPTIONS preflight then POST, accepted call then rejected "
+    "call, exempt paths first, …; plus seeded sequences of 2-5 steps mixing OPTIONS/GET/HEAD/POST/DELETE, exempt and "
+    "non-exempt paths, no/bad/good credential) with the oracle and the history-free model applied at every step; a case is "
+    "distinct by (configuration, verb, path, credential, preceding requests) and non-trivial when an authenticator is configured"
 )
 PARTIAL = [
     "session teardown hooks behind DELETE {prefix}/__session__ are covered by the theorem and by the 401 check, not by the invocation log",
@@ -333,7 +340,7 @@ def send(h: dict[str, Any], cfg: dict[str, Any], verb: str, path: str, cred: str
          accept_html: bool = False, more_headers: dict[str, str] | None = None) -> dict[str, Any]:
     CALLS.clear()
     h["alog"].clear()
-    headers = {"X-Cred": cred}
+    headers = {} if cred == "none" else {"X-Cred": cred}
     if accept_html:
         headers["Accept"] = "text/html"
     b = None
@@ -467,6 +474,31 @@ def case_of(cfg: dict[str, Any], verb: str, path: str, cred: str, extra: dict[st
     return c
 
 
+def hist_of(h: dict[str, Any], path: str) -> list[list[Any]]:
+    """Requests this app instance has already seen on `path` (state carried between requests is usually keyed by path)."""
+    return [list(x) for x in h.setdefault("hist", {}).get(path, [])]
+
+
+def remember(h: dict[str, Any], verb: str, path: str, cred: str, extra: dict[str, Any] | None = None) -> None:
+    step: list[Any] = [verb, path, cred]
+    keep = {k: v for k, v in (extra or {}).items() if k in ("html", "body_hex", "hdrs")}
+    if keep:
+        step.append(keep)
+    h.setdefault("hist", {}).setdefault(path, []).append(step)
+
+
+def after_key(history: list[list[Any]] | None) -> str:
+    """Canonical class of what preceded a failing request on the same app instance ('' for a fresh app)."""
+    if not history:
+        return ""
+    seen: list[str] = []
+    for st in history:
+        tag = st[0] + ("+good" if st[2] == "good" else "")
+        if tag not in seen:
+            seen.append(tag)
+    return ":after:" + ",".join(seen)
+
+
 def rel_key(cfg: dict[str, Any], path: str) -> str:
     pfx = cfg["pfx"]
     return path[len(pfx):] if pfx and path.startswith(pfx) else path
@@ -487,48 +519,67 @@ def check_unit(ctx: Any, cfg: dict[str, Any], h: dict[str, Any], verbs: list[str
             ctx.mismatch(case_of(cfg, "GET", p, "-", {"unit": "route"}), model_route_py(mr), ir, "route: model vs Falcon router")
     if not cfg["auth"] or h["auth_mw"] is None:
         return
-    pairs = [(v, p) for p in paths for v in verbs]
+    # the verb order differs from path to path: a verdict remembered from an earlier request on the same path shows up
+    pairs = []
+    for p in paths:
+        vs = list(verbs)
+        ctx.rng.shuffle(vs)
+        pairs += [(v, p) for v in vs]
     res = ctx.driver.batch([("C20.exempt", {"cfg": mc, "verb": s2j(v), "path": s2j(p)}) for v, p in pairs]) \
         if ctx.driver is not None else [None] * len(pairs)
     for (v, p), me in zip(pairs, res):
+        history = hist_of(h, p)
         ie = impl_exempt(h, v, p)
+        remember(h, v, p, "bad")
         why = spec_bypass(cfg, v, p)
-        case = case_of(cfg, v, p, "bad", {"unit": "exempt"})
+        case = case_of(cfg, v, p, "bad", {"unit": "exempt", **({"history": history} if history else {})})
         ctx.case(case, nontrivial=True, tags=("k1:exempt", "exempt:" + (why or "no") if ie else "exempt:consulted"))
         if me is not None and me != ie:
             ctx.mismatch(case, {"exempt": me}, {"exempt": ie}, "exempt: model vs _AuthMiddleware.process_request")
         if ie and why is None:
-            fail_once(ctx, case, f"C20:auth-bypassed:{v if v == 'OPTIONS' else '*'}:{rel_key(cfg, p)}",
+            fail_once(ctx, case, f"C20:auth-bypassed:{v if v == 'OPTIONS' else '*'}:{rel_key(cfg, p)}{after_key(history)}",
                      f"the authenticate callback is not consulted for {v} {p} (prefix {cfg['pfx']!r}), which is not OPTIONS, "
-                     f"/.well-known/, the exact health path or a PKCE path")
+                     f"/.well-known/, the exact health path or a PKCE path"
+                     + (f"; earlier on this app instance: {history}" if history else ""))
 
 
 def check_request(ctx: Any, cfg: dict[str, Any], h: dict[str, Any], verb: str, path: str, cred: str,
                   body: bytes | None = None, extra: dict[str, Any] | None = None) -> None:
     """K4 + O on one whole request."""
     accept_html = bool(extra and extra.get("html"))
+    history = (extra or {}).get("history")
+    if history is None:
+        history = hist_of(h, path)
     obs = send(h, cfg, verb, path, cred, body, accept_html, (extra or {}).get("hdrs"))
+    remember(h, verb, path, cred, extra)
+    extra = {k: v for k, v in (extra or {}).items() if k != "history"}
+    if history:
+        extra["history"] = history
     case = case_of(cfg, verb, path, cred, extra)
+    ak = after_key(history)
     why = spec_bypass(cfg, verb, path)
     ran = list(obs["calls"]) + ([("unary", "__describe__")] if obs["described"] else [])
     ctx.case(case, nontrivial=bool(cfg["auth"]), tags=(f"req:{cred}", f"verb:{verb}", f"status:{obs['status']}",
                                                         "bypass:" + (why or "none"), "ran:" + ("yes" if ran else "no")))
-    if cfg["auth"] and cred == "bad":
+    if cfg["auth"] and cred in ("bad", "none"):
+        seen = f"; earlier on this app instance: {history}" if history else ""
         if ran:
-            fail_once(ctx, case, f"C20:dispatched-unauthenticated:{rel_key(cfg, path)}",
-                     f"{verb} {path} ran {ran} although the authenticator rejects the request (status {obs['status']})")
+            fail_once(ctx, case, f"C20:dispatched-unauthenticated:{rel_key(cfg, path)}{ak}",
+                     f"{verb} {path} ran {ran} although the authenticator rejects the request (status {obs['status']}){seen}")
         elif why is None and not obs["auth_called"]:
-            fail_once(ctx, case, f"C20:auth-bypassed:{verb if verb == 'OPTIONS' else '*'}:{rel_key(cfg, path)}",
-                     f"{verb} {path}: callback not consulted (status {obs['status']})")
+            fail_once(ctx, case, f"C20:auth-bypassed:{verb if verb == 'OPTIONS' else '*'}:{rel_key(cfg, path)}{ak}",
+                     f"{verb} {path}: callback not consulted (status {obs['status']}){seen}")
         elif why is None and obs["status"] != 401 and not (cfg["pkce"] and verb == "GET" and obs["status"] == 302):
-            fail_once(ctx, case, f"C20:rejected-not-401:{obs['status']}:{rel_key(cfg, path)}",
-                     f"{verb} {path}: callback rejected but the status is {obs['status']}")
+            fail_once(ctx, case, f"C20:rejected-not-401:{obs['status']}:{rel_key(cfg, path)}{ak}",
+                     f"{verb} {path}: callback rejected but the status is {obs['status']}{seen}")
     if ctx.driver is None:
         return
     m = ctx.driver.call("C20.respond", {"cfg": model_cfg(cfg), "verb": s2j(verb), "path": s2j(path), "authOk": cred == "good"})
     if m["authCalled"] != obs["auth_called"] or m["unauthorized"] != obs["rejected"]:
         ctx.mismatch(case, {"authCalled": m["authCalled"], "unauthorized": m["unauthorized"]},
-                     {"authCalled": obs["auth_called"], "unauthorized": obs["rejected"]}, "respond: callback consulted / rejected")
+                     {"authCalled": obs["auth_called"], "unauthorized": obs["rejected"]},
+                     "respond: callback consulted / rejected" + (" (the model is history-free; this app instance had seen "
+                                                                 f"{history} on the path)" if history else ""))
         return
     # service code: the model says what the route may run given a well-formed body; the harness knows what it sent
     kinds = dict(cfg["methods"])
@@ -600,11 +651,91 @@ def exchange_bodies(cfg: dict[str, Any], h: dict[str, Any]) -> dict[str, tuple[s
     return out
 
 
+SEQ_VERBS = ["OPTIONS", "GET", "HEAD", "POST", "DELETE"]
+
+
+def seq_targets(cfg: dict[str, Any]) -> list[str]:
+    """Paths whose POST runs service code for an accepted caller."""
+    pfx = cfg["pfx"]
+    out = []
+    for nm, kind in cfg["methods"]:
+        if nm.startswith("_"):
+            continue
+        out.append(f"{pfx}/{nm}" if kind == "unary" else f"{pfx}/{nm}/init")
+    if cfg["describe"]:
+        out.append(f"{pfx}/__describe__")
+    if cfg["upload"]:
+        out.append(f"{pfx}/__upload_url__/init")
+    return out
+
+
+def corpus_sequences(cfg: dict[str, Any], t: str) -> list[list[list[Any]]]:
+    hp = cfg["pfx"] + "/health"
+    wk = "/.well-known/oauth-protected-resource"
+    return [
+        [["OPTIONS", t, "none"], ["POST", t, "none"]],                       # a credential-less preflight, then the call
+        [["OPTIONS", t, "none"], ["POST", t, "bad"]],
+        [["POST", t, "good"], ["POST", t, "bad"]],                           # an accepted call, then a rejected one
+        [["POST", t, "bad"], ["OPTIONS", t, "none"], ["POST", t, "bad"]],
+        [["GET", hp, "none"], ["OPTIONS", hp, "none"], ["POST", t, "bad"]],   # exempt paths first
+        [["GET", wk, "none"], ["POST", t, "none"]],
+        [["HEAD", t, "none"], ["POST", t, "bad"]],
+        [["OPTIONS", t, "none"], ["OPTIONS", t, "bad"], ["GET", t, "bad"], ["POST", t, "bad"]],
+        [["DELETE", t, "good"], ["POST", t, "none"]],
+    ]
+
+
+def random_sequence(cfg: dict[str, Any], rng: Any, targets: list[str]) -> list[list[Any]]:
+    t = rng.choice(targets)
+    others = [rng.choice(targets), cfg["pfx"] + "/health", "/.well-known/x", cfg["pfx"] + "/_oauth/callback", cfg["pfx"] or "/"]
+    steps = []
+    for _ in range(rng.randrange(1, 5)):
+        steps.append([rng.choice(SEQ_VERBS), t if rng.random() < 0.65 else rng.choice(others),
+                      rng.choice(["none", "bad", "good", "none"])])
+    steps.append(["POST", t, rng.choice(["bad", "none"])])
+    return steps
+
+
+def check_sequence(ctx: Any, cfg: dict[str, Any], steps: list[list[Any]]) -> None:
+    """A request sequence against ONE fresh app instance: every step gets the full K4 + O treatment, and every case carries the
+    steps before it so that a replay re-creates the state of the app."""
+    h = build(cfg)
+    for i, st in enumerate(steps):
+        verb, path, cred = st[0], st[1], st[2]
+        body, bf = (body_for(h, cfg, path) if verb in ("POST", "PUT", "PATCH", "DELETE") else (None, None))
+        extra: dict[str, Any] = {"history": [list(x) for x in steps[:i]], "seq": True}
+        if bf:
+            extra["body_for"] = bf
+        ctx.tag("seq:step")
+        check_request(ctx, cfg, h, verb, path, cred, body, extra)
+    ctx.tag("seq:sequences", f"seq:len{len(steps)}", "seq:first:" + steps[0][0])
+
+
+def run_sequences(ctx: Any, cfg: dict[str, Any], n_corpus: int, n_random: int) -> None:
+    if not cfg["auth"]:
+        return
+    targets = seq_targets(cfg)
+    if not targets:
+        return
+    rng = ctx.rng
+    seqs: list[list[list[Any]]] = []
+    for t in rng.sample(targets, min(len(targets), 3)):
+        seqs += corpus_sequences(cfg, t)
+    head, tail = seqs[:2], seqs[2:]
+    rng.shuffle(tail)
+    seqs = head + tail[: max(0, n_corpus - 2)]
+    for _ in range(n_random):
+        seqs.append(random_sequence(cfg, rng, targets))
+    for steps in seqs:
+        check_sequence(ctx, cfg, steps)
+
+
 def run_cfg(ctx: Any, cfg: dict[str, Any], n_mut: int, full: bool) -> None:
     rng = ctx.rng
     h = build(cfg)
     paths = paths_for(cfg, rng, n_mut)
-    check_unit(ctx, cfg, h, VERBS if full else ["GET", "POST", "OPTIONS", rng.choice(["HEAD", "PUT", "DELETE", "PATCH"])], paths)
+    # direct middleware / router calls on their own app instance (its middleware keeps its own history)
+    check_unit(ctx, cfg, build(cfg), VERBS if full else ["GET", "POST", "OPTIONS", rng.choice(["HEAD", "PUT", "DELETE", "PATCH"])], paths)
     # K3
     if ctx.driver is not None:
         mm = sorted("".join(chr(c) for c in x) for x in ctx.driver.call("C20.methods", {"cfg": model_cfg(cfg)}))
@@ -615,7 +746,9 @@ def run_cfg(ctx: Any, cfg: dict[str, Any], n_mut: int, full: bool) -> None:
     ascii_paths = [p for p in paths if p.startswith("/") and all(33 <= ord(c) < 127 and c not in "%?#" for c in p)]
     methods = h["server"].methods
     for p in ascii_paths:
-        for verb in (VERBS if full else ["POST", "GET", "OPTIONS"]):
+        order = list(VERBS if full else ["POST", "GET", "OPTIONS"])
+        rng.shuffle(order)  # which verb touches a path first varies from path to path
+        for verb in order:
             if not full and verb != "POST" and rng.random() < 0.5:
                 continue
             body, bf = (body_for(h, cfg, p) if verb in ("POST", "PUT", "PATCH", "DELETE") else (None, None))
@@ -629,6 +762,8 @@ def run_cfg(ctx: Any, cfg: dict[str, Any], n_mut: int, full: bool) -> None:
     if cfg["auth"]:
         for nm, (url, content, hdrs) in exchange_bodies(cfg, h).items():
             ex = {"exchange_of": nm, "body_hex": content.hex(), "hdrs": hdrs}
+            if rng.random() < 0.5:
+                check_request(ctx, cfg, h, "OPTIONS", url, "none", None, {})
             check_request(ctx, cfg, h, "POST", url, "good", content, ex)
             check_request(ctx, cfg, h, "POST", url, "bad", content, ex)
     del methods
@@ -654,6 +789,12 @@ def run(ctx: Any) -> None:
         cfgs.append(random_cfg(ctx.rng))
     full = ctx.tier == "thorough" or ctx.deep
     n_mut = ctx.budget(40, 100)
+    # request sequences on one app instance, before the per-request sweep
+    n_corpus, n_random = ctx.budget(5, 27), ctx.budget(4, 30)
+    for cfg in cfgs:
+        run_sequences(ctx, cfg, n_corpus, n_random)
+        if ctx.deep and ctx.tier != "thorough" and len(ctx.failures) >= 8:
+            break
     for i, cfg in enumerate(cfgs):
         run_cfg(ctx, cfg, n_mut, full)
         if ctx.deep and ctx.tier != "thorough" and len(ctx.failures) >= 8 and i >= 3:
@@ -671,11 +812,22 @@ def replay(ctx: Any, case: dict[str, Any]) -> None:
     if case.get("unit") == "route":
         check_unit(ctx, {**cfg, "auth": False}, h, [], [case["path"]])
         return
+    history = case.get("history") or []
     if case.get("unit") == "exempt":
+        for st in history:  # re-create what the middleware instance had seen
+            impl_exempt(h, st[0], st[1])
+            remember(h, st[0], st[1], st[2])
         check_unit(ctx, cfg, h, [case["verb"]], [case["path"]])
         return
+    for st in history:  # re-create the state of the app instance: the same requests, in order, on this fresh app
+        more = st[3] if len(st) > 3 else {}
+        hb = bytes.fromhex(more["body_hex"]) if more.get("body_hex") else None
+        send(h, cfg, st[0], st[1], st[2], hb, bool(more.get("html")), more.get("hdrs"))
+        remember(h, st[0], st[1], st[2], more)
     body = bytes.fromhex(case["body_hex"]) if case.get("body_hex") else None
-    extra = {k: case[k] for k in ("body_for", "exchange_of", "body_hex", "html", "hdrs") if k in case}
+    extra = {k: case[k] for k in ("body_for", "exchange_of", "body_hex", "html", "hdrs", "seq") if k in case}
+    if history:
+        extra["history"] = history
     if body is None and case["verb"] in ("POST", "PUT", "PATCH", "DELETE"):
         body, bf = body_for(h, cfg, case["path"])
     check_request(ctx, cfg, h, case["verb"], case["path"], case["cred"], body, extra)
